@@ -48,11 +48,58 @@ class FactoryModel:
 
     def _arms(self, fn, enum_cls):
         folded = self._arms_folded(fn, enum_cls)
+        if folded is None or len(folded) < 30:
+            # nothing to look at in the return statements (`return builder(value)`): evaluate the registry instead
+            ev = self._arms_evaluated(fn, enum_cls)
+            if ev is not None:
+                folded = ev
         if folded is not None:
             if len(folded) < 30:
                 raise AnalysisError('instance floor not met: %s has %d arms' % (fn.name, len(folded)))
             return folded
         return self._arms_spelled(fn, enum_cls)
+
+    def _arms_evaluated(self, fn, enum_cls):
+        """member -> constructed classes, by EVALUATING the registry function for every member with an empty value (as the decoders call
+        it): constructors of other modules are recorded, not run (pv/fold.py ExtRef / Built), so a registry driven by tables of classes,
+        partials and bound helper methods folds to the same answer as the if-chain it replaced.  None when something is not modelled."""
+        from .fold import Folder, Enum, Built, Unfoldable, Raised
+        from .polmodel import all_enum_tables
+        members = enum_table(self.src, enum_cls)
+        tabs = all_enum_tables(self.src)
+        tree = self.src.tree(AVF)
+        arms = {}
+        try:
+            for mname in members:
+                f = Folder(steps=40000)
+                f.ext_refs = True
+                f.module = tree
+                f.enum_tables = {k: list(v) for k, v in tabs.items()}
+                selfv = Folder.new_object(self.cls)
+                try:
+                    r = f.call_method(fn, selfv, [Enum(enum_cls, mname), None], {})
+                except Raised as ex:
+                    if ex.name in ('NotImplementedError',):
+                        arms[mname] = None
+                    continue
+                if r is None:
+                    continue
+                if not isinstance(r, Built):
+                    return None
+                ref = self.ix.resolve_class(AVF, ast.parse(r.name, mode='eval').body)
+                if ref is None and '.' in r.name:
+                    ref = self.ix.resolve_class(AVF, ast.parse(r.name.rsplit('.', 1)[0], mode='eval').body)      # Class.create(...)
+                if ref is None:
+                    arms[mname] = {(None, r.name)}
+                    continue
+                tag = None
+                for a in list(r.args) + list(r.kw.values()):
+                    if isinstance(a, Enum) and a.cls == 'Tags':
+                        tag = a.name
+                arms[mname] = {(ref, tag)}
+        except (Unfoldable, RecursionError):
+            return None
+        return arms
 
     def _arms_folded(self, fn, enum_cls):
         """member -> constructed classes, by folding the registry function for every member of the selector's enumeration: the
